@@ -38,7 +38,7 @@ def floors(tier):
             "best_match_is_descendant": 500, "best_match_is_toplevel": 2000,
             "reused_validator_sequences": 1000, "root_reference_objects": 500,
             "fault_cases": 2000, "fault_after_first_error": 300, "fault_before_first_error": 300,
-            "explicit_class_with_foreign_dollar_schema": 1000, "non_object_whole_schemas": 20}
+            "explicit_class_with_foreign_dollar_schema": 1000, "non_object_whole_schemas": 20, "cases_exotic_containers": 800}
 
 
 # ------------------------------------------------------------------ recording proxies
@@ -100,11 +100,17 @@ class Cmp:
         self.ctx = ctx
         self.fc = jsonschema.FormatChecker()
 
-    def valid_schema_case(self, d, schema, inst, use_fc, via_schema_kw):
+    def valid_schema_case(self, d, schema, inst, use_fc, via_schema_kw, wrap=None):
         ctx = self.ctx
         cls = impl.CLS[d]
         kw = {"format_checker": self.fc} if use_fc else {}
-        case = {"draft": d, "schema": schema, "instance": inst, "format_checker": use_fc, "via_$schema": via_schema_kw}
+        case = {"draft": d, "schema": schema, "instance": inst, "format_checker": use_fc, "via_$schema": via_schema_kw, "instance_class": wrap}
+        if wrap:
+            # ONE object of another container class (defaultdict inserts on look-up, ...) handed to every entry point in
+            # turn, as a caller would: what one entry point does to it is seen by the next
+            from vf.gen.values import exotic
+            inst = exotic(inst, wrap)
+            ctx.count("cases_exotic_containers")
         try:
             errs = list(cls(schema, **kw).iter_errors(inst))
         except X.ValidationError as e:
@@ -439,6 +445,10 @@ def run(ctx):
         insts = ig.batch(4)
         for inst in insts:
             C.valid_schema_case(d, schema, inst, use_fc=rng.random() < 0.3, via_schema_kw=via)
+        if i % 3 == 0:
+            from vf.gen.values import EXOTIC_KINDS
+            for j, inst in enumerate(insts[:2]):
+                C.valid_schema_case(d, schema, inst, use_fc=False, via_schema_kw=via, wrap="defaultdict" if j == 0 else EXOTIC_KINDS[1 + i % 3])
         if i % 2 == 0:
             fault_variants(ctx, C, rng, d, schema, insts)
         if i % 3 == 1 and isinstance(schema, dict) and not via:
@@ -474,4 +484,4 @@ def replay(ctx, rec):
     elif c.get("invalid_schema"):
         C.invalid_schema_case(c["draft"], c["schema"], c["instance"], c.get("via_$schema", False))
     else:
-        C.valid_schema_case(c["draft"], c["schema"], c["instance"], c.get("format_checker", False), c.get("via_$schema", False))
+        C.valid_schema_case(c["draft"], c["schema"], c["instance"], c.get("format_checker", False), c.get("via_$schema", False), wrap=c.get("instance_class"))
